@@ -1162,6 +1162,64 @@ def probes(ctx, ks):
                 ctx.fail(f'oracle:Alloc:wrong-result', f"{k.name}.Alloc({n}) is not {n} identity values", {'class': k.name, 'n': n})
 
 
+def ctor_table(ctx, ks):
+    """T-tab for Model/C10_Ctor.v: EVERY argument list of length <= 4 whose first element is an object of the class, over elements that hold
+    0, 1, 2 or 3 values or are foreign (an object of an unrelated class / an int), is passed to the constructor of every list-capable class; outcome
+    (new state, or exception kind) compared with `ctor_objs` evaluated by vm_compute.  This is where an element-count test that lets an
+    empty element compensate a multi-valued one shows."""
+    import itertools
+    alphabet = [0, 1, 2, 3, 'X']
+    profiles = [()]
+    for n in range(1, 5):
+        profiles += [p for p in itertools.product(alphabet, repeat=n) if p[0] != 'X']
+
+    def tags_of(profile):
+        out, t = [], 10
+        for e in profile:
+            if e == 'X':
+                out.append(None)
+            else:
+                out.append(list(range(t, t + e)))
+                t += e
+        return out
+    terms = []
+    for pr in profiles:
+        els = "; ".join("EOther" if ts is None else "ESame [" + "; ".join(str(t) for t in ts) + "]" for ts in tags_of(pr))
+        terms.append(f"match ctor_objs [{els}] with Ok d => (0, d) | Raise IndexError => (1, []) | Raise ValueError => (2, []) | Raise TypeError => (3, []) "
+                     f"| Raise AssertionError => (4, []) | Raise StopIteration => (5, []) end")
+    hdr = COQ_HEADER.replace("Model.C10_World.", "Model.C10_World Model.C10_Ctor.")
+    vals = ctx.coq_eval(hdr, terms, name='ctor', chunk=700)
+    EXC = {IndexError: 1, ValueError: 2, TypeError: 3, AssertionError: 4, StopIteration: 5}
+    for k in ks:
+        for pr, v in zip(profiles, vals):
+            nums = [int(t) for t in re.findall(r'-?\d+', v)]
+            mcode, mdata = nums[0], nums[1:]
+            arg = [(k.unrelated() if (j % 2 == 0) else 3) if ts is None else k.build(ts) for j, ts in enumerate(tags_of(pr))]
+            ctx.case((k.name, 'ctor-table', pr))
+            ctx.corr['cases'] += 1
+            try:
+                r = k.cls(arg)
+                icode, idata = (0, k.state(r)[1:]) if type(r) is k.cls and k.state(r)[0] == len(k.state(r)) - 1 else (-1, ['not-same-class-or-bad-state'])
+            except Exception as ex:  # noqa
+                icode, idata = EXC.get(type(ex), 9), []
+            if (icode, idata) != (mcode, mdata):
+                ctx.corr['disagreements'] += 1
+                lens = [('foreign' if e == 'X' else e) for e in pr]
+                if icode == 0 and mcode != 0:
+                    what = 'accepted-though-an-element-is-not-a-single-value'
+                elif icode != 0 and mcode == 0:
+                    what = 'rejected-though-every-element-is-a-single-value'
+                elif icode == 0:
+                    what = 'wrong-values'
+                else:
+                    what = 'other-exception-kind'
+                ctx.fail(f'corr:ctor-from-list-of-objects:{what}',
+                         f"{k.name}([..]) with elements holding {lens} values: implementation gives (code {icode}, {idata}), "
+                         f"model ctor_objs (Model/C10_Ctor.v) gives (code {mcode}, {mdata}) [0 = constructed, 2 = ValueError, 4 = AssertionError]",
+                         {'class': k.name, 'values_per_element': lens, 'implementation': [icode, idata], 'model': [mcode, mdata]})
+    ctx.stats['ctor-table-profiles'] = len(profiles)
+
+
 # --------------------------------------------------------------------------------------------- entry points
 def run(ctx):
     ctx.rule = ("obligations: theorems of theories/Props/C10.v (model theories/Model/C10_SMList.v vs specification C10_PyList.v); "
@@ -1190,6 +1248,9 @@ def run(ctx):
         world_histories(ctx, model, ks, ctx.n(120, 2500))
     with ctx.timed('probes'):
         probes(ctx, ks)
+    ctx.prove('theories/Props/C10_ctor.v')
+    with ctx.timed('ctor-table'):
+        ctor_table(ctx, ks)
     ctx.corr['functions'] = len(OPNAME)
 
 
